@@ -115,6 +115,18 @@ theorem witness_round_above_self_parent (g : List Nat) (es : List HG.Ev) (hnd : 
     (hsp : e.sp ≠ "") (hp : (HG.runAll (HG.St.init g) es).get e.sp = some p) (hrp : p.round = some rp) : rp < r :=
   HG.witness_above_self_parent g es hnd hfresh x e p r rp hx hw hr hsp hp hrp
 
+/-- **rounds never decrease along ancestry** (operational model): if `a` is an ancestor-or-self of `b`
+    in the stored history (the reachability relation of C07's `ancestor_eq_reachability`), the round
+    of `a` is at most the round of `b` -/
+theorem rounds_never_decrease_along_ancestry (g : List Nat) (es : List HG.Ev) (hnd : (es.map (·.id)).Nodup)
+    (hfresh : ∀ e ∈ es, e.id ≠ "" ∧ e.round = none ∧ e.rr = none) (a b : String)
+    (h : HG.Anc (HG.runAll (HG.St.init g) es).events a b) (ea eb : HG.Ev) (ra rb : Int)
+    (ha : (HG.runAll (HG.St.init g) es).get a = some ea) (hb : (HG.runAll (HG.St.init g) es).get b = some eb)
+    (hra : ea.round = some ra) (hrb : eb.round = some rb) : ra ≤ rb :=
+  HG.anc_round_le g es hnd hfresh
+    (Babble.Props.C07.admission_invariant g es (fun x hx => (hfresh x hx).1) (HG.nodup_hash hnd))
+    a b h ea eb ra rb ha hb hra hrb
+
 /-- **one witness per creator and round** (operational model): two stored witnesses of the same
     creator with the same round are the same event — rounds never decrease along ancestry, a creator's
     events form one chain (C07), and a witness's round is strictly above its self-parent's.  On the
